@@ -43,7 +43,7 @@ func (p *parser) parseHost(u *Url, parser *parser, input string, isNotSpecial bo
 				return "", err
 			}
 		}
-		input = strings.Trim(input, "[]")
+		input = input[1 : len(input)-1]
 		return p.parseIPv6(u, newInputString(input))
 	}
 	if isNotSpecial {
